@@ -24,7 +24,8 @@ func init() {
 			"R1b ociref.IsValidDigest answers true only when go-digest's Parse/Validate reported no error (so validated digests have an available algorithm). " +
 			"R6 the same panic inventory over the challenge parser of the authorising transport (challengeFromResponse and the private helpers it reaches), whose input is a Www-Authenticate header chosen by the server; the bounds prover's loop invariants (counted loop: i <= len(s) after `for i < len(s)`; lockstep cursors: j - i never grows when j advances at most as fast as i) discharge the scanner loops and the unescape buffer. R4 the lock-order graph of ociclient is acyclic (no method takes a mutex that may already be held on the way to it). " +
 			"R5 in the authorising transport's challenge parser, the buffer that receives the unescaped rest of a quoted string is at least len(s)-1 bytes (an unterminated string with one escape writes exactly that many). " +
-			"R7 a private (*T, error) function of ociauth/ociclient whose result is dereferenced unchecked (directly, through a phi, or after being handed up unchanged) never returns a pointer that can be nil with a nil error (the nil constant, or a local pointer variable filled only through its address, e.g. by json.Unmarshal).",
+			"R7 a private (*T, error) function of ociauth/ociclient whose result is dereferenced unchecked (directly, through a phi, or after being handed up unchanged) never returns a pointer that can be nil with a nil error (the nil constant, or a local pointer variable filled only through its address, e.g. by json.Unmarshal). " +
+			"R8 a pointer returned by a fallible call is stored into a receiver field only under err == nil of that call (no nil left behind for the next method to dereference).",
 		NotDecided: "the quality/wording of the returned errors is not decided.",
 		Technique:  "static analysis: panic-site inventory with a difference-bound prover and guard obligations (disjunctive path facts), natural-loop progress classification",
 	})
@@ -43,6 +44,7 @@ func runC18(c *core.Ctx) {
 	clientLocksAcyclic(c, "C18.R4")
 	unescapeBufferHoldsTheRest(c, "C18.R5")
 	pointerResultsNonNilOnSuccess(c, "C18.R7", "ociauth", "ociclient")
+	fallibleResultStoredOnlyOnSuccess(c, "C18.R8", "ociclient", "ociauth")
 	// R6: the challenge parser of the authorising transport sees a header chosen by the server
 	if cfr := c.P.Func("ociauth", "challengeFromResponse"); cfr == nil {
 		c.Fail("C18.R6", "anchor/ociauth.challengeFromResponse", 0, "ociauth.challengeFromResponse not found")
@@ -534,9 +536,44 @@ func digestChain(c *core.Ctx) (bool, string) {
 func knownDigestValidated(arg ssa.Value, at ssa.Instruction) bool {
 	b, fld, ok := facts.FieldOf(facts.Resolve(arg))
 	if !ok || fld != "Digest" {
+		// not read back from the request: the very value the request literal was
+		// built from (`Digest: string(d)` … `descriptorFromResponse(resp, d, …)`)
+		unconv := func(v ssa.Value) ssa.Value {
+			for i := 0; i < 6; i++ {
+				v = facts.Resolve(v)
+				switch x := v.(type) {
+				case *ssa.ChangeType:
+					v = x.X
+				case *ssa.Convert:
+					v = x.X
+				default:
+					return v
+				}
+			}
+			return v
+		}
+		want := unconv(arg)
+		for _, blk := range at.Parent().Blocks {
+			for _, in := range blk.Instrs {
+				al, isAl := in.(*ssa.Alloc)
+				if !isAl {
+					continue
+				}
+				pt, isP := al.Type().(*types.Pointer)
+				if !isP || !isNamed(pt.Elem(), "internal/ocirequest", "Request") {
+					continue
+				}
+				if dv, has := blobLiteralFieldOf(al, "Digest"); has && unconv(dv) == want {
+					if validatedRequestLiteral(al, al, at, nil) {
+						return true
+					}
+				}
+			}
+		}
 		return false
 	}
 	var reqV ssa.Value = facts.Resolve(b)
+	var ctorCall *ssa.Call
 	al, ok := reqV.(*ssa.Alloc)
 	if !ok {
 		// the request literal is built by a small private constructor (`blobGetRequest(repo, digest)`)
@@ -556,10 +593,26 @@ func knownDigestValidated(arg ssa.Value, at ssa.Instruction) bool {
 		if !ok {
 			return false
 		}
+		ctorCall = call
 	}
+	return validatedRequestLiteral(al, reqV, at, ctorCall)
+}
+
+// validatedRequestLiteral: the request literal al (seen by its users as reqV)
+// is of a kind whose URL needs a valid digest, and its successful
+// construction dominates at.
+func validatedRequestLiteral(al *ssa.Alloc, reqV ssa.Value, at ssa.Instruction, ctorCall *ssa.Call) bool {
 	kv, has := blobLiteralFieldOf(al, "Kind")
 	if !has {
 		return false
+	}
+	// `digestRequest(ocirequest.ReqBlobGet, repo, d)`: the kind is what this call passes
+	if p, isP := kv.(*ssa.Parameter); isP && ctorCall != nil {
+		for i, q := range p.Parent().Params {
+			if q == p && i < len(ctorCall.Call.Args) {
+				kv = ctorCall.Call.Args[i]
+			}
+		}
 	}
 	kinds, _ := loadKindsFromValue(kv)
 	if !kinds {
